@@ -743,17 +743,31 @@ def normalise_function(tree: ast.Module, cls: Optional[ast.ClassDef], fn: FuncDe
 
 def normalise_module(m: pf.Module, select: Callable[[Optional[str], str], Optional[str]], **kw) -> pf.Module:
     """Copy of module m in which every function for which select(class name | None, function name) returns a mode ('cheap' | 'all') is in
-    normal form.  Methods of top-level classes and top-level functions only."""
-    tree = copy.deepcopy(m.tree)
-    for st in tree.body:
+    normal form.  Methods of top-level classes and top-level functions only.  Only the selected functions are copied; everything else is shared
+    with the original tree (which is never modified)."""
+    tree = copy.copy(m.tree)
+    tree.body = list(m.tree.body)
+    todo: List[Tuple[Optional[ast.ClassDef], FuncDef, str]] = []
+    for i, st in enumerate(tree.body):
         if isinstance(st, ast.ClassDef):
-            for f in st.body:
+            c2 = None
+            for j, f in enumerate(st.body):
                 if isinstance(f, ast.FunctionDef):
                     mode = select(st.name, f.name)
                     if mode:
-                        normalise_function(tree, st, f, mode, **kw)
+                        if c2 is None:
+                            c2 = copy.copy(st)
+                            c2.body = list(st.body)
+                            tree.body[i] = c2
+                        f2 = copy.deepcopy(f)
+                        c2.body[j] = f2
+                        todo.append((c2, f2, mode))
         elif isinstance(st, ast.FunctionDef):
             mode = select(None, st.name)
             if mode:
-                normalise_function(tree, None, st, mode, **kw)
+                f2 = copy.deepcopy(st)
+                tree.body[i] = f2
+                todo.append((None, f2, mode))
+    for c2, f2, mode in todo:
+        normalise_function(tree, c2, f2, mode, **kw)
     return pf.Module(m.rel, m.path, m.src, tree)
